@@ -88,6 +88,72 @@ def interop(a, b, kind, private_b: bool, params=None) -> str | None:
     return None
 
 
+def _scribble_nested(d: dict) -> None:
+    """edit, in place, every list / object found under a dict the caller owns"""
+    for v in d.values():
+        if isinstance(v, list):
+            v.append("scribbled")
+        elif isinstance(v, dict):
+            v["scribbled"] = 1
+            _scribble_nested(v)
+
+
+def caller_dict_problems(material: RKey, params, rng, res, label) -> list:
+    """the dicts a key was made from (the JWK, the `parameters` argument) stay the caller's: what the caller does to them after the
+    call - replacing members or editing the lists inside - is not seen by the key"""
+    from joserfc.jwk import JWKRegistry
+    out = []
+    extras = copy.deepcopy(params or {})
+    cls = S.jose_cls(material.kty)
+    makers = []
+    src = rk.to_jwk(material, True)
+    src.update(copy.deepcopy(extras))
+    makers.append(("import_key(jwk)", src, lambda: JWKRegistry.import_key(src)))
+    if extras:
+        p1 = copy.deepcopy(extras)
+        raw = material.k if material.kty == "oct" else K.pem(material, True)
+        makers.append(("import_key(bytes, parameters)", p1, lambda: cls.import_key(raw, p1)))
+        p2 = copy.deepcopy(extras)
+        bare = rk.to_jwk(material, True)
+        makers.append(("import_key(jwk, parameters)", p2, lambda: cls.import_key(bare, p2)))
+        if material.kty != "RSA":
+            p3 = copy.deepcopy(extras)
+            arg = len(material.k) * 8 if material.kty == "oct" else material.crv
+            makers.append(("generate_key(parameters)", p3, lambda: cls.generate_key(arg, p3)))
+    name, owned, make = rng.pick(makers)
+    early = rng.chance(0.5)        # whether the key has exported once before the caller edits its dict
+    try:
+        with warnings.catch_warnings():
+            warnings.simplefilter("ignore")
+            key = make()
+    except Exception:
+        return out          # refusals are judged elsewhere
+    want = {k: copy.deepcopy(v) for k, v in extras.items()}
+    if early:
+        try:
+            key.as_dict()
+        except Exception:
+            return out      # judged by the export rounds
+    _scribble_nested(owned)
+    for k in list(owned):
+        if k not in ("kty", "crv") and not (name == "import_key(jwk, parameters)" and k in bare):
+            owned[k] = "edited-later"
+    owned["kid"] = "edited-later"
+    res.case(label, "caller-dicts", name, early)
+    res.fired("caller-edits-source-dict-after-import")
+    try:
+        got = key.as_dict()
+    except Exception as e:
+        return [("source-dict:aliased-with-key-state", "%s: export fails after the caller edited its own dict: %s: %s" % (name, type(e).__name__, str(e)[:80]))]
+    diff = {k: got.get(k) for k in want if got.get(k) != want[k]}
+    if "kid" not in want and got.get("kid") == "edited-later":
+        diff["kid"] = got["kid"]
+    if diff:
+        out.append(("source-dict:aliased-with-key-state", "%s: after the caller edited the dict it had passed%s the key exports %r, given %r" % (
+            name, " (one export earlier)" if early else "", diff, {k: want.get(k) for k in diff})))
+    return out
+
+
 def check_key(res, tr, label, material: RKey, jkey, params, viol, rng, thorough):
     """persist in every form, crash, reload, compare"""
     kind = _kind(material)
@@ -167,6 +233,7 @@ def check_key(res, tr, label, material: RKey, jkey, params, viol, rng, thorough)
             continue
         snapshot = copy.deepcopy(first)
         kid_before = jkey.kid
+        _scribble_nested(first)
         for name in list(first):
             if name != "kty":
                 del first[name]
@@ -182,6 +249,8 @@ def check_key(res, tr, label, material: RKey, jkey, params, viol, rng, thorough)
             viol("export:aliased-with-key-state", "%s after the caller changed the dict returned by an earlier %s gives %r (kid %r), before: %r (kid %r)" % (
                 ename, ename, {k: v for k, v in second.items() if snapshot.get(k) != v} or "members missing: %s" % sorted(set(snapshot) - set(second)),
                 jkey.kid, {k: v for k, v in snapshot.items() if second.get(k) != v}, kid_before), "export-scribble")
+    for sig, what in caller_dict_problems(material, params, rng, res, label):
+        viol(sig, what, "caller-dicts")
     # private export of a public-only key must be an error
     try:
         pub = S.reload(S.persist(jkey, "jwk-public"), "jwk-public", material.kty) if kind[0] != "oct" else None
@@ -235,7 +304,7 @@ def run(rng: Rng, tier: str, index: int) -> RunResult:
     for ki in range(n_keys):
         krng = rng.sub("key%d" % ki)
         label = "%d.%d" % (index, ki)
-        params = dict(krng.pick(S.EXTRA))
+        params = copy.deepcopy(krng.pick(S.EXTRA))
         if kind[0] in ("oct",) and params.get("alg") == "ECDH-ES":
             params.pop("alg")
         source = krng.pick(["material", "material", "generate"])
@@ -246,7 +315,7 @@ def run(rng: Rng, tier: str, index: int) -> RunResult:
             rare = krng.pick(["x", "y", "d"])
         try:
             if source == "generate":
-                jkey = S.jose_cls(kind[0]).generate_key(kind[1] if kind[0] != "oct" else krng.pick([8, 128, 256, 512]), params or None)
+                jkey = S.jose_cls(kind[0]).generate_key(kind[1] if kind[0] != "oct" else krng.pick([8, 128, 256, 512]), copy.deepcopy(params) or None)
                 material = S.material_of(jkey)
                 how = "generate_key"
             else:
